@@ -304,6 +304,12 @@ func RunRegistry(behs [][]Step, tr *Trace, env Env, sum *Summary) {
 						call(func() {
 							err = w.TS.ListenerStart(handlers.LISTENER_EXTERNAL, handlers.ExternalConfig{Name: a, Endpoint: epSpelling(a) + a + "-ep"})
 						})
+					case "extsame":
+						// on the endpoint the other name's External listener has
+						other := map[string]string{"n1": "n2", "n2": "n1"}[a]
+						call(func() {
+							err = w.TS.ListenerStart(handlers.LISTENER_EXTERNAL, handlers.ExternalConfig{Name: a, Endpoint: epSpelling(other) + other + "-ep"})
+						})
 					}
 					ok = err == nil
 				case "AddSvcType":
